@@ -145,6 +145,10 @@ def run(ctx: Ctx) -> None:
     c07.run(Alias(ctx, "C15.R8", "HTTP/2: the idleness that decides the GOAWAY is the connection's idle predicate computed after the finished stream was removed (C07.R1 on stream_send)", only={"C07.R1"}, where=["H2Protocol.stream_send"]))
     from . import c16
 
+    from . import c08
+
+    c08.run(Alias(ctx, "C15.R9", "HTTP/2: a response that completes within the grace period is on the wire before its stream is closed and the connection told to go away: EndBody/EndData wait for the stream buffer to drain (C08.R6)", only={"C08.R6"}))
+    c16.run(Alias(ctx, "C15.R10", "the lifespan shutdown wait is bounded by shutdown_timeout in both workers (C16.R2 on Lifespan.wait_for_shutdown)", only={"C16.R2"}, where=["Lifespan.wait_for_shutdown"]))
     c16.run(Alias(ctx, "C15.R7", "both workers realise the same idle-timer skeleton: on `terminated` the timer closes the connection at once (C16.R2 on _idle_timeout/_initiate_server_close; C16.R1 on WorkerContext)", only={"C16.R1", "C16.R2"}, where=["_idle_timeout", "_initiate_server_close", "WorkerContext"]))
     ctx.assume("not decided: wall-clock bounds, what clients observe, cancellation semantics of asyncio.wait_for / trio deadlines")
     ctx.assume("runtime fact used by C15.R1: asyncio.Server.wait_closed() waits for active connections on CPython >= 3.12 (confirmed by triage/asyncio_shutdown_unbounded.py)")
